@@ -401,3 +401,149 @@ Proof.
       rewrite reparent_parent. cbn. destruct (Nat.eqb_spec k new); [congruence|]. rewrite andb_true_r.
       destruct (memb k (children cn)); [rewrite orb_true_r; reflexivity|]. rewrite orb_false_r. reflexivity.
 Qed.
+
+(* ---- the logical axes of a node: parent wire, the children's edge wires, open wires ------------------- *)
+(* the wire on x's leg 0 (the edge to its parent, for a non-root node) *)
+Definition ew (s : store) (x : id) : wire :=
+  match aget x (nodes s) with Some xn => nth 0 (lax s x xn) 0 | None => 0 end.
+
+Lemma skipn_add {A} a b (l : list A) : skipn a (skipn b l) = skipn (b + a) l.
+Proof.
+  revert l. induction b as [|b IH]; intros l; cbn [Nat.add]; [reflexivity|].
+  destruct l as [|x t]; [destruct a; reflexivity|]. cbn [skipn]. apply IH.
+Qed.
+
+Lemma nth_firstn_lt {A} i k (l : list A) d : i < k -> nth i (firstn k l) d = nth i l d.
+Proof.
+  revert i l. induction k as [|k IH]; intros i l H; [lia|]. destruct l as [|x t]; [destruct i; reflexivity|].
+  destruct i as [|i]; cbn; [reflexivity|]. apply IH. lia.
+Qed.
+
+Lemma wf_lax_children s k n : wf s -> aget k (nodes s) = Some n ->
+  firstn (length (children n)) (skipn (nparents n) (lax s k n)) = map (ew s) (children n).
+Proof.
+  intros W E. pose proof (wf_node s W k n E) as Hn.
+  assert (Hlen : length (lax s k n) = nlegs n) by apply laxes_length.
+  pose proof (ni_virt _ _ _ Hn) as Hv. unfold nvirt in Hv.
+  assert (Hl1 : length (firstn (length (children n)) (skipn (nparents n) (lax s k n))) = length (children n)).
+  { apply firstn_length_le. rewrite skipn_length. nlia. }
+  apply nth_ext with (d := 0) (d' := ew s 0).
+  - rewrite Hl1, map_length. reflexivity.
+  - intros i Hi. rewrite Hl1 in Hi. rewrite nth_firstn_lt by exact Hi. rewrite nth_skipn.
+    rewrite (map_nth (ew s) (children n) 0 i).
+    set (x := nth i (children n) 0).
+    assert (Hx : In x (children n)) by (apply nth_In; exact Hi).
+    destruct (wf_child_parent s k n x W E Hx) as (xn & Ex & Epx).
+    destruct (ni_par _ _ _ (wf_node s W x xn Ex) k Epx) as (n' & i' & E' & _ & Hni & Hw).
+    rewrite E in E'. injection E' as <-.
+    rewrite (neighbour_index_child n x (wf_parent_not_child s x xn k n W Ex Epx E)) in Hni.
+    pose proof (index_of_nth _ _ (ni_chnd _ _ _ Hn) Hi) as Hidx. change (index_of x (children n) = Some i) in Hidx.
+    rewrite Hidx in Hni. cbn in Hni. injection Hni as <-.
+    unfold ew. fold x. rewrite Ex. symmetry. exact Hw.
+Qed.
+
+Lemma wf_lax_decomp s k n : wf s -> aget k (nodes s) = Some n ->
+  lax s k n = firstn (nparents n) (lax s k n) ++ map (ew s) (children n) ++ open_of n (tens s k).
+Proof.
+  intros W E. rewrite <- (wf_lax_children s k n W E). unfold open_of. fold (lax s k n). unfold nvirt.
+  rewrite <- skipn_add. rewrite firstn_skipn. rewrite firstn_skipn. reflexivity.
+Qed.
+
+(* conversely, a node whose logical axes have this shape satisfies the edge clause for its children *)
+Lemma child_edge_from_decomp n (L A O : list wire) (f : id -> wire) x :
+  L = A ++ map f (children n) ++ O -> length A = nparents n -> parent n <> Some x -> In x (children n) ->
+  exists i, neighbour_index n x = Some i /\ nth i L 0 = f x.
+Proof.
+  intros HL HA Hp Hx. destruct (index_of_In x (children n) Hx) as [j Hj].
+  exists (nparents n + j). split.
+  - rewrite (neighbour_index_child n x Hp), Hj. reflexivity.
+  - apply index_of_Some in Hj. destruct Hj as [Hj1 Hj2].
+    rewrite HL, <- HA. rewrite app_nth2 by lia. replace (length A + j - length A) with j by lia.
+    rewrite app_nth1 by (rewrite map_length; exact Hj1).
+    rewrite (nth_indep _ 0 (f 0)) by (rewrite map_length; exact Hj1). rewrite map_nth. f_equal. exact Hj2.
+Qed.
+
+(* ---- replace_first ----------------------------------------------------------------------------------- *)
+Lemma replace_first_length x y l : length (replace_first x y l) = length l.
+Proof. induction l as [|z t IH]; cbn; [reflexivity|]. destruct (Nat.eqb x z); cbn; [reflexivity|]. f_equal. exact IH. Qed.
+
+Lemma replace_first_In x y l : In x l -> In y (replace_first x y l).
+Proof.
+  induction l as [|z t IH]; [intros []|]. intros H. cbn. destruct (Nat.eqb_spec x z) as [->|Hne]; [left; reflexivity|].
+  destruct H as [->|H]; [congruence|]. right. apply IH. exact H.
+Qed.
+
+Lemma replace_first_In_other x y l k : k <> x -> In k l -> In k (replace_first x y l).
+Proof.
+  intros Hk. induction l as [|z t IH]; [intros []|]. intros H. cbn. destruct (Nat.eqb_spec x z) as [->|Hne].
+  - destruct H as [->|H]; [congruence|]. right. exact H.
+  - destruct H as [->|H]; [left; reflexivity|right; apply IH; exact H].
+Qed.
+
+Lemma replace_first_In_inv x y l k : NoDup l -> In k (replace_first x y l) -> k = y \/ (In k l /\ k <> x).
+Proof.
+  induction l as [|z t IH]; [intros _ []|]. intros Hnd H. inversion Hnd as [|? ? Hni Hnd']; subst. cbn in H.
+  destruct (Nat.eqb_spec x z) as [->|Hne].
+  - destruct H as [<-|H]; [left; reflexivity|]. right. split; [right; exact H|]. intros ->. contradiction.
+  - destruct H as [<-|H]; [right; split; [left; reflexivity|congruence]|].
+    destruct (IH Hnd' H) as [->|[H1 H2]]; [left; reflexivity|right; split; [right; exact H1|exact H2]].
+Qed.
+
+Lemma replace_first_NoDup x y l : NoDup l -> (~ In y l \/ y = x) -> NoDup (replace_first x y l).
+Proof.
+  intros Hnd [Hy | ->]; [|rewrite replace_first_same; exact Hnd].
+  induction l as [|z t IH]; cbn; [constructor|]. inversion Hnd as [|? ? Hni Hnd']; subst.
+  destruct (Nat.eqb_spec x z) as [->|Hne].
+  - constructor; [|exact Hnd']. intros H. apply Hy. right. exact H.
+  - constructor.
+    + intros H. apply replace_first_In_inv in H; [|exact Hnd']. destruct H as [->|[H _]]; [apply Hy; left; reflexivity|contradiction].
+    + apply IH; [exact Hnd'|]. intros H. apply Hy. right. exact H.
+Qed.
+
+Lemma index_of_replace_first_new x y l : (~ In y l \/ y = x) -> index_of y (replace_first x y l) = index_of x l.
+Proof.
+  intros [Hy | ->]; [|rewrite replace_first_same; reflexivity].
+  induction l as [|z t IH]; cbn; [reflexivity|].
+  destruct (Nat.eqb_spec x z) as [->|Hne]; cbn.
+  - rewrite Nat.eqb_refl. reflexivity.
+  - destruct (Nat.eqb_spec y z) as [->|Hyz]; [exfalso; apply Hy; left; reflexivity|].
+    rewrite IH; [reflexivity|]. intros H. apply Hy. right. exact H.
+Qed.
+
+Lemma index_of_replace_first_other x y l k : k <> x -> k <> y -> index_of k (replace_first x y l) = index_of k l.
+Proof.
+  intros Hx Hy. induction l as [|z t IH]; cbn; [reflexivity|].
+  destruct (Nat.eqb_spec x z) as [->|Hne]; cbn.
+  - destruct (Nat.eqb_spec k y); [congruence|]. destruct (Nat.eqb_spec k z); [congruence|]. reflexivity.
+  - destruct (Nat.eqb k z); [reflexivity|]. rewrite IH. reflexivity.
+Qed.
+
+Lemma remove_first_NoDup x l : NoDup l -> NoDup (remove_first x l) /\ ~ In x (remove_first x l).
+Proof.
+  intros Hnd. rewrite (remove_first_filter x l Hnd). split; [apply NoDup_filter; exact Hnd|].
+  intros H. apply filter_In in H. destruct H as [_ H]. rewrite Nat.eqb_refl in H. discriminate.
+Qed.
+
+Lemma remove_first_In x l k : In k (remove_first x l) -> In k l.
+Proof.
+  induction l as [|z t IH]; cbn; [auto|]. destruct (Nat.eqb x z); [intros H; right; exact H|].
+  intros [->|H]; [left; reflexivity|right; apply IH; exact H].
+Qed.
+
+Lemma remove_first_In_other x l k : k <> x -> In k l -> In k (remove_first x l).
+Proof.
+  intros Hk. induction l as [|z t IH]; [intros []|]. cbn. destruct (Nat.eqb_spec x z) as [->|Hne].
+  - intros [->|H]; [congruence|exact H].
+  - intros [->|H]; [left; reflexivity|right; apply IH; exact H].
+Qed.
+
+Lemma index_of_split x l j : index_of x l = Some j ->
+  exists l1 l2, l = l1 ++ x :: l2 /\ length l1 = j /\ ~ In x l1.
+Proof.
+  revert j. induction l as [|z t IH]; intros j; cbn; [discriminate|].
+  destruct (Nat.eqb_spec x z) as [->|Hne].
+  - intros [= <-]. exists [], t. repeat split. intros [].
+  - destruct (index_of x t) as [i|]; [|discriminate]. intros [= <-].
+    destruct (IH i eq_refl) as (l1 & l2 & -> & Hl & Hni). exists (z :: l1), l2. repeat split; [cbn; lia|].
+    intros [E|H]; [congruence|contradiction].
+Qed.
